@@ -41,6 +41,10 @@ type planSpec struct {
 	Order   []int       `json:"order"` // ids in RawFetches order
 	Mode    int         `json:"mode"`
 	MapDesc bool        `json:"map_desc"` // map range loops of package postprocess iterate in descending key order
+	// Before: plans that the SAME postprocess.Processor processed (in this
+	// order) before this plan; empty = a fresh Processor. Only Fetches and Order
+	// of these are used.
+	Before []planSpec `json:"before,omitempty"`
 }
 
 func (ps *planSpec) fetch(id int) *fetchSpec {
@@ -52,13 +56,9 @@ func (ps *planSpec) fetch(id int) *fetchSpec {
 	return nil
 }
 
-func (ps *planSpec) String() string {
+func (ps *planSpec) fetchesString() string {
 	var b strings.Builder
-	fmt.Fprintf(&b, "family=%s mode=%s", ps.Family, modeNames[ps.Mode])
-	if ps.MapDesc {
-		b.WriteString(" maporder=desc")
-	}
-	fmt.Fprintf(&b, " raw order=%v fetches:", ps.Order)
+	fmt.Fprintf(&b, "raw order=%v fetches:", ps.Order)
 	for _, f := range ps.Fetches {
 		fmt.Fprintf(&b, " {id=%d dependsOn=%v path=%s", f.ID, f.Deps, pathMenu[f.Path].Name)
 		if f.Kind != kindPlain {
@@ -72,6 +72,22 @@ func (ps *planSpec) String() string {
 	return b.String()
 }
 
+func (ps *planSpec) String() string {
+	var b strings.Builder
+	fmt.Fprintf(&b, "family=%s mode=%s", ps.Family, modeNames[ps.Mode])
+	if ps.MapDesc {
+		b.WriteString(" maporder=desc")
+	}
+	for i := range ps.Before {
+		fmt.Fprintf(&b, " | plan %d processed earlier by the same Processor: %s", i+1, ps.Before[i].fetchesString())
+	}
+	if len(ps.Before) > 0 {
+		b.WriteString(" | plan under judgement:")
+	}
+	b.WriteString(" " + ps.fetchesString())
+	return b.String()
+}
+
 func (ps *planSpec) clone() *planSpec {
 	c := *ps
 	c.Fetches = make([]fetchSpec, len(ps.Fetches))
@@ -80,6 +96,10 @@ func (ps *planSpec) clone() *planSpec {
 		c.Fetches[i] = f
 	}
 	c.Order = append([]int(nil), ps.Order...)
+	c.Before = nil
+	for i := range ps.Before {
+		c.Before = append(c.Before, *ps.Before[i].clone())
+	}
 	return &c
 }
 
